@@ -16,12 +16,12 @@ from vt import core
 from vt.main import decide
 from translate import history_tr
 
-GRAMS = ["GA", "GB", "GC", "GD", "GE", "BAD1", "BAD2", "BAD3", "BAD4", "GF"]
+GRAMS = ["GA", "GB", "GC", "GD", "GE", "BAD1", "BAD2", "BAD3", "BAD4", "GF", "GH", "BAD5", "BAD6", "BAD7"]
 USES_BASE = {"GB", "GC", "GE"}
 CLS_KEYS = ["Item:plain", "Item:set", "Item:boom", "Model:plain", "Ref:plain", "Item:get"]
 CLS_FOR = {"GA": ["Item:plain", "Item:set", "Item:boom", "Item:get", "Model:plain", "Ref:plain"], "GB": ["Item:plain", "Item:set", "Item:boom", "Item:get"],
            "GC": [], "GD": ["Item:plain", "Item:set", "Ref:plain", "Model:plain"], "GE": ["Item:plain", "Item:set", "Item:get"],
-           "GF": ["Item:set", "Item:get", "Item:plain"]}
+           "GF": ["Item:set", "Item:get", "Item:plain"], "GH": ["Item:plain", "Item:set"]}
 
 INPUTS = {
     "GA": ["A item x = 1; ref x;", "A item x = 1; item y = 22; ref y; ref x;", "A item x = 1; ref zz;", "A item x = 1 ref x;",
@@ -35,6 +35,7 @@ INPUTS = {
            'import "cyc.gd"; item r; ref s;', "item ; ", 'import "lib.gd"; item mperr; ref b;', 'import "lib.gd"; item bad; ref a;',
            "item y; ref p;"],
     "GE": ["12", "true", "item a 3", "3.5", "item a x", "item boom 4", "item c 13", "item nope 1"],
+    "GH": ["H item a = 1; item b;", "H item ;", "H item a = 13;", "H"],
     # GF: the root value is whatever the object processors of the match rules return (Decimal, Fraction, tuple, frozenset,
     # list, a plain Python object) or an Item
     "GF": ["item a 3", "12.5mm", "3:4", "item b 7", "item", "7mm", "12.5 mm", "10:2", "item c 13", "item nope 2"],
@@ -61,7 +62,7 @@ def cls_id(g, key):
 
 # ------------------------------------------------------------------ generators
 def rand_cfg(r, g=None):
-    g = g or r.weighted([("GA", 5), ("GB", 5), ("GC", 3), ("GD", 4), ("GE", 3), ("GF", 5)])
+    g = g or r.weighted([("GA", 5), ("GB", 5), ("GC", 3), ("GD", 4), ("GE", 3), ("GF", 5), ("GH", 3)])
     cfg = {"g": g}
     if r.chance(0.45):
         cfg["memo"] = True
@@ -81,7 +82,7 @@ def rand_cfg(r, g=None):
         m = r.weighted([("Measure:decimal", 4), ("Measure:fraction", 2), ("Measure:obj", 2), (None, 1)])
         q = r.weighted([("Pair:tuple", 4), ("Pair:frozenset", 2), ("Pair:list", 2), (None, 1)])
         objp += [x for x in (m, q) if x]
-    if g in ("GA", "GB", "GE", "GF") and r.chance(0.5):
+    if g in ("GA", "GB", "GE", "GF", "GH") and r.chance(0.5):
         # base-type processors: a conversion, or a rejection that raises in the middle of the object-graph construction
         objp.append(r.weighted([("INT:inc", 2), ("INT:no13", 3), ("ID:nope", 2)]))
     if g in ("GB", "GC") and r.chance(0.3):
@@ -109,7 +110,7 @@ def rand_cfg(r, g=None):
 
 
 def bad_cfg(r):
-    cfg = {"g": r.choice(["BAD1", "BAD2", "BAD3", "BAD4"])}
+    cfg = {"g": r.choice(["BAD1", "BAD2", "BAD3", "BAD4", "BAD5", "BAD6", "BAD7"])}
     if r.chance(0.5):
         cfg["memo"] = True
     if r.chance(0.1):
@@ -140,7 +141,7 @@ def rand_load(r, cfg, slot, last):
 def make_pool(r, n):
     """the run's pool of metamodel configurations (histories draw from it, so fresh evaluations are shared)"""
     pool = []
-    for i, g in enumerate(["GA", "GB", "GD", "GF", "GC", "GE"][:n]):
+    for i, g in enumerate(["GA", "GB", "GD", "GF", "GC", "GE", "GH"][:n]):
         pool.append(rand_cfg(r, g))
     gf = next(c for c in pool if c["g"] == "GF")      # always a user class with its own attribute methods where the root
     if not any(k in gf.get("classes", []) for k in ("Item:set", "Item:get")):   # rule can yield non-textX values
